@@ -207,25 +207,40 @@ def main():
             sys.exit(f"astgen fresh failed for {name}: {q.stderr[-400:]}")
         ftree = P(tokenize(q.stdout.strip())).value()
         out.append(f"pub fn fresh_{name.lower()}(p: &str) -> Fresh {{ {conv(ftree)} }}")
-    groups = {}
+    def lookup_arms(ents):
+        arms = []
+        groups = {}
+        for e in ents:
+            groups.setdefault(e[0], []).append(e)
+        for blen in sorted(groups):
+            g = groups[blen]
+            if len(g) == 1:
+                arms.append(f"        {blen} => {g[0][3]},  // {g[0][2]}")
+                continue
+            # same length: discriminate by one byte position at which all members differ
+            idx = next((i for i in range(blen) if len({m[1][i] for m in g}) == len(g)), None)
+            if idx is None:
+                sys.exit(f"oracle table: texts {[m[2] for m in g]} have the same length {blen} and no single distinguishing byte")
+            inner = " ".join(f"{m[1][idx]} => {m[3]}," for m in g)
+            arms.append(f"        {blen} => match source.as_bytes()[{idx}] {{ {inner} _ => Err(perr()) }},  // {[m[2] for m in g]}")
+        return arms
+    def lookup_fn(fname, ents, doc):
+        return [f"/// {doc}",
+                f"pub fn {fname}(source: &str, _mode: rustpython_parser::Mode, _path: &str) -> Result<ast::Mod, rustpython_parser::ParseError> {{",
+                "    match source.len() {"] + lookup_arms(ents) + ["        _ => Err(perr()),", "    }", "}"]
+    arms = lookup_arms(entries)
+    # smaller stand-ins (a harness links only the ASTs it can reach): one per text family and one per text
+    fams = {"hist": ("C_", "U_", "L_"), "docs": ("D_",), "world": ("W_",)}
+    extra = []
+    for fam, prefs in fams.items():
+        extra += lookup_fn(f"oracle_parse_{fam}", [e for e in entries if e[2].startswith(prefs)], f"stand-in restricted to the {prefs} texts")
     for e in entries:
-        groups.setdefault(e[0], []).append(e)
-    for blen in sorted(groups):
-        g = groups[blen]
-        if len(g) == 1:
-            arms.append(f"        {blen} => {g[0][3]},  // {g[0][2]}")
-            continue
-        # same length: discriminate by one byte position at which all members differ
-        idx = next((i for i in range(blen) if len({m[1][i] for m in g}) == len(g)), None)
-        if idx is None:
-            sys.exit(f"oracle table: texts {[m[2] for m in g]} have the same length {blen} and no single distinguishing byte")
-        inner = " ".join(f"{m[1][idx]} => {m[3]}," for m in g)
-        arms.append(f"        {blen} => match source.as_bytes()[{idx}] {{ {inner} _ => Err(perr()) }},  // {[m[2] for m in g]}")
+        extra += lookup_fn(f"oracle_only_{e[2].lower()}", [e], f"stand-in knowing only {e[2]}")
     out += ["", "fn perr() -> rustpython_parser::ParseError {",
             "    rustpython_parser::ParseError { error: rustpython_parser::ParseErrorType::Eof, offset: TextSize::new(0), source_path: String::new() }", "}",
             "/// stand-in for rustpython_parser::parse (solver build): table lookup by text length (plus one distinguishing byte where lengths collide)",
             "pub fn oracle_parse(source: &str, _mode: rustpython_parser::Mode, _path: &str) -> Result<ast::Mod, rustpython_parser::ParseError> {",
-            "    match source.len() {"] + arms + ["        _ => Err(perr()),", "    }", "}",
+            "    match source.len() {"] + arms + ["        _ => Err(perr()),", "    }", "}"] + extra + [
             "pub const ALL: &[(&str, &str, bool)] = &["] + [f'    ("{n}", T_{n}, OK_{n}),' for n in names] + ["];", ""]
     path = os.path.join(V, "kani", "src", "gen", "oracle.rs")
     os.makedirs(os.path.dirname(path), exist_ok=True)
